@@ -218,7 +218,12 @@ J_iv_comp(e) ==
       mag == <<sg * c[1], sg * c[2], sg * (7 * c[3] + c[4]), sg * c[5], sg * c[6], sg * c[7], sg * c[8]>>
       H(h) == <<sg * h[1], sg * h[2], sg * h[3], sg * h[4], sg * h[5], sg * h[6], sg * h[7]>>
       alg == AlgPD(low, hiw)
-  IN R(<<e.a.rel, B(fwd), "br", alg.br, B(alg.borrow), "premise", B(premise), "lo", PClass(lo), "hi", PClass(hi)>>,
+      \* both end-points on one wall-clock date with different UTC offsets: the helpers then convert to UTC by hand
+      \* (their `total_days == 0` path), the compiled one with the carries of finding C06-rust-cross-zone
+      sdo == ~dates /\ ~IsNaive(a) /\ <<a.w[1], a.w[2], a.w[3]>> = <<b.w[1], b.w[2], b.w[3]>>
+             /\ OffOf(DT(a.z, a.w, a.f)) # OffOf(DT(b.z, b.w, b.f))
+  IN R(<<e.a.rel, B(fwd), "br", alg.br, B(alg.borrow), "premise", B(premise), "lo", PClass(lo), "hi", PClass(hi), "sameday-offchg",
+         (IF ~sdo THEN "0" ELSE IF Abs(OffOf(DT(a.z, a.w, a.f)) - OffOf(DT(b.z, b.w, b.f))) >= 43200 THEN "dateline" ELSE "1")>>,
        IF p.k = "exc" THEN << <<"unexpected-exception", p.names>> >>
        ELSE V("in_months", p.in_months = 12 * c[1] + c[2], 12 * c[1] + c[2])
             \o V("backends-agree", p.py = p.rs, p.py)
